@@ -733,6 +733,7 @@ inductive SanityResult
   | ok                      -- returns []
   | differs (i : Nat)       -- returns ["BUG: Symbol i differs ..."]
   | indexError (i : Nat)    -- f_tokens[i] raises IndexError
+  | countDiffers            -- (fixes/C11-sanity-check-length.patch) "BUG: Token count differs"
   deriving DecidableEq, Repr
 
 /-- The loop `for i in range(len(o_tokens))` over the collapsed streams. -/
@@ -745,5 +746,12 @@ def sanityLoop : Nat → List Tok → List Tok → SanityResult
 
 def sanityCheck (formatted original : List Tok) : SanityResult :=
   sanityLoop 0 (collapseNewlines original) (collapseNewlines formatted)
+
+/-- The loop with the length comparison of fixes/C11-sanity-check-length.patch in front. -/
+def sanityLoopLen (o f : List Tok) : SanityResult :=
+  if o.length ≠ f.length then .countDiffers else sanityLoop 0 o f
+
+def sanityCheckLen (formatted original : List Tok) : SanityResult :=
+  sanityLoopLen (collapseNewlines original) (collapseNewlines formatted)
 
 end Emboss.Fmt
